@@ -26,7 +26,7 @@ RULE = ('plan = store-building history under a scripted clock (steps of 0 '
         '0-2 Initial Date filters, offset/maximum in 0..n+1, under KMIP '
         '1.0-2.0. Non-trivial: >= 2 object types stored, a date tie or '
         'jump, and a request with >= 2 filters. Distinct = trace digest.')
-PROBES = ['undecodable_request', 'date_tie', 'backward_jump', 'two_date_filters', 'paged',
+PROBES = ['attribute_edit_before_locate', 'undecodable_request', 'date_tie', 'backward_jump', 'two_date_filters', 'paged',
           'filter_not_applicable_to_some_type', 'empty_result',
           'requester_with_groups', 'multi_filter', 'nonempty_result']
 REAL_VS_STUB = {
@@ -189,6 +189,32 @@ def generate(rng, tier, index):
                     {'op': 'Revoke', 'uid': '@' + op['label'],
                      'code': r.choice([1, 2])}]})
         steps.append({'clock': r.choice([0, 0, 1, 1, 2, 5, -3, -1, 60])})
+    # the owners then change a group / a name of some objects (objects with
+    # exactly one instance, so that index 0 is unambiguous): what Locate
+    # matches afterwards is what the clients set, object by object
+    editable = []
+    for st in steps:
+        if 'items' not in st:
+            continue
+        op = st['items'][0]
+        if op['op'] in ('Create', 'Register') and op.get('label'):
+            for an in ('Object Group', 'Name'):
+                inst = [a for a in op.get('attrs', []) if a['n'] == an]
+                if len(inst) == 1:
+                    editable.append((st['actor'], op['label'], an))
+    r.shuffle(editable)
+    for actor, lab, an in editable[:r.choice([0, 0, 1, 2, 3])]:
+        nv = r.choice(ctx.groups + ['grp-x', 'moved']) if \
+            an == 'Object Group' else ['renamed-%d' % r.randrange(99), 1]
+        ver = r.choice([(1, 2), (1, 4), (2, 0)])
+        if ver >= (2, 0):
+            op = {'op': 'ModifyAttribute', 'uid': '@' + lab,
+                  'new': gen.A(an, nv), 'cur_from_history': True}
+        else:
+            op = {'op': 'ModifyAttribute', 'uid': '@' + lab,
+                  'attr': gen.A(an, nv, 0)}
+        steps.append({'actor': actor, 'ver': list(ver), 'items': [op],
+                      'edit': [lab, an, nv]})
     nq = r.randint(4, 10)
     for _ in range(nq):
         a = r.randrange(nact)
@@ -231,6 +257,7 @@ def execute(plan):
     W = world.World(plan['actors'], plan['policies'], seed=plan['seed'])
     tie = jump = multi = False
     trace = []
+    intended = {}
 
     def flag(oracle, **det):
         viol.append({'sig': {'oracle': oracle, 'why': det.get('why')},
@@ -248,9 +275,47 @@ def execute(plan):
                 W.clock.advance(st['clock'])
                 continue
             if not st.get('locate'):
-                W.request(copy.deepcopy(st))
+                rq = copy.deepcopy(st)
+                op0 = rq['items'][0]
+                if op0['op'] in ('Create', 'Register') and op0.get('label'):
+                    intended[op0['label']] = {
+                        'groups': sorted(a['v'] for a in op0.get('attrs', [])
+                                         if a['n'] == 'Object Group'),
+                        'names': sorted(a['v'][0] for a in
+                                        op0.get('attrs', [])
+                                        if a['n'] == 'Name')}
+                if st.get('edit'):
+                    lab, an, nv = st['edit']
+                    key = 'groups' if an == 'Object Group' else 'names'
+                    cur = (intended.get(lab) or {}).get(key) or []
+                    if op0.pop('cur_from_history', None) and cur:
+                        op0['cur'] = gen.A(an, cur[0] if an ==
+                                           'Object Group' else [cur[0], 1])
+                    resp_e = W.request(rq)
+                    if resp_e is not None and resp_e.items and \
+                            resp_e.items[0]['status'] == 0 and \
+                            lab in intended and len(cur) == 1:
+                        intended[lab][key] = [nv if an == 'Object Group'
+                                              else nv[0]]
+                        probes['attribute_edit_before_locate'] += 1
+                    continue
+                W.request(rq)
                 continue
             view = model.store_view(W.db)
+            # the stored attributes are what the request history set
+            for lab, want in sorted(intended.items()):
+                uid = W.labels.get(lab)
+                o = view.get(uid)
+                if o is None:
+                    continue
+                if sorted(o['groups']) != want['groups'] or \
+                        sorted(o['names']) != want['names']:
+                    flag('stored-attributes-differ-from-request-history',
+                         why='groups' if sorted(o['groups']) !=
+                         want['groups'] else 'names', uid=uid,
+                         stored=[o['groups'], o['names']],
+                         history=[want['groups'], want['names']])
+                    intended.pop(lab)
             a = plan['actors'][st['actor']]
             op = st['items'][0]
             fl = op['attrs']
